@@ -2,6 +2,10 @@ import Momo.Proof.PoolHist
 import Momo.Proof.PoolSingle
 import Momo.Proof.PoolDll
 import Momo.Proof.TrEqPool
+import Momo.Proof.PoolSingleMerge
+import Momo.Proof.PoolWorld
+import Momo.Proof.PoolDllWalk
+import Momo.Proof.PoolU32Ops
 /-!
 # C09 — Memory pool blocks are aligned, disjoint, inside owned memory, and all returned
 
@@ -509,3 +513,262 @@ example : ptrWalk 10 (ptrMergeFrom 5 exHeap 11 22) 10 = [10, 21, 20, 11, 22] := 
 example : mergeMoveFull [21, 20] [10] = [20, 21, 10] := by decide
 
 end Momo.Pool
+
+/-! ## `MergeFrom` for `blockCount == 1`, histories of single-block pools -/
+namespace Momo.Pool
+
+/-- **C09 (state, `blockCount == 1`, `MergeFrom`).** Merging two well-formed single-block pools that hold different memory
+(their recorded blocks are different addresses): the call succeeds and leaves the other pool EMPTY; the receiving pool is
+well formed; its live blocks are exactly the live blocks of both pools and EACH of them can afterwards be freed
+individually through the receiving pool (with the effect `Dealloc1Spec`: exactly this block goes, the allocation behind it
+is given back with the address and size it was obtained with); the counts add up; the only calls to the manager are one
+`free` per block of the other pool's cache, each legal (`Ledger1OK`: the ledger of both pools' memory is turned into the
+memory of the receiving pool - every cached block of the source is returned exactly once, every other block is transferred
+exactly once). -/
+theorem C09_single_merge (P : Params) (hN1 : P.N = 1) (a b : Pool) (ha : SingleWF P a) (hb : SingleWF P b)
+    (hdis : ∀ x ∈ a.singles.map (·.1), x ∉ b.singles.map (·.1)) :
+    ∃ a' evs, mergeFrom P a b = .ok Pool.empty a' evs ∧ SingleWF P a' ∧
+      (a'.live P).Perm (a.live P ++ b.live P) ∧ a'.allocCount = a.allocCount + b.allocCount ∧
+      (∀ blk ∈ a.live P ++ b.live P, ∃ p' e, deallocate P a' blk = .ok () p' e ∧ Dealloc1Spec P a' p' blk e) ∧
+      Ledger1OK P (a.singles ++ b.singles) evs a'.singles ∧ FreesOnly1 P evs ∧ evs.length = b.cache.length ∧
+      (b.singles.map (·.1)).Perm
+        (b.cache ++ (a'.singles.map (·.1)).filter (fun x => !(a.singles.map (·.1)).contains x)) := by
+  obtain ⟨a', evs, h1, h2, h3, h4, _, h6, h7, h8, h9⟩ := mergeFrom_single_ok hN1 ha hb hdis
+  exact ⟨a', evs, h1, h2, h3, h4,
+    fun blk hblk => deallocate_single_ok hN1 h2 blk (h3.symm.subset hblk), h6, h7, h8, h9⟩
+
+/-- **C09 (state, `blockCount == 1`, all histories).** Every state reached by a legal history of single-block pools - any
+sequence of `Allocate` (succeeding or refused), `Deallocate` of live blocks and `MergeFrom` of pools holding different
+memory, with a manager that honours its contract - is well formed, its reported count is the number of live blocks, the
+calls made to the manager so far form an exact ledger of the memory the pool holds, and destroying the pool once no block
+is live leaves that ledger EMPTY. -/
+theorem C09_single_history (P : Params) (hL : P.Legal) (hN1 : P.N = 1) (p : Pool) (es : List Ev) (h : Reach1 P p es) :
+    SingleWF P p ∧ p.allocCount = (p.live P).length ∧ Ledger1Is P es p.singles ∧
+    (p.live P = [] → ∃ p' evs, destroy P p = .ok () p' evs ∧ p'.singles = [] ∧ p'.store = [] ∧
+      ledger [] (es ++ evs) = some []) := by
+  obtain ⟨hwf, hled⟩ := h.inv hL hN1
+  refine ⟨hwf, hwf.count_exact hN1, hled, fun hl => ?_⟩
+  have h0 : p.allocCount = 0 := by rw [hwf.count_exact hN1, hl]; rfl
+  obtain ⟨p', evs, h1, h2, h3, h4⟩ := destroy_single_ok hN1 hwf h0
+  obtain ⟨L, e1, e2⟩ := hled.step h4
+  refine ⟨p', evs, h1, h2, h3, ?_⟩
+  rw [e1]; simp only [owned1, List.map_nil] at e2; rw [List.perm_nil.mp e2]
+
+/-! ## `Swap`, move construction, move assignment: a world of pool objects and memory managers -/
+
+theorem live_empty (P : Params) : Pool.empty.live P = [] := by
+  unfold Pool.live Pool.taken Pool.empty; split <;> rfl
+
+/-- **C09 (`Swap` / move construction / move assignment, one step).**
+* `Swap` exchanges everything two pool objects consist of: parameters, MEMORY MANAGER (finding F26: always), count,
+  buffer list, cache - so each object now is what the other was.
+* Move construction makes the new object what the source was, with the source's manager; the source is left EMPTY holding
+  a moved-from manager, and destroying an empty pool makes no call to any manager (so the moved-from object is
+  destructible although its manager must not be used).
+* Move assignment to a well-formed object without live blocks (the precondition of its destructor's check) makes it what
+  the source was, leaves the source empty and moved-from, and gives ALL memory the target held back - with frees only,
+  each legal - through the manager the target held before. -/
+theorem C09_swap_move_ok (a b : PoolObj) :
+    swapObjs a b = (b, a) ∧
+    moveCtor a = (a, ⟨a.P, none, Pool.empty⟩) ∧
+    (∀ P, destroy P Pool.empty = .ok () Pool.empty []) ∧
+    (ObjWF a → a.pool.live a.P = [] →
+      ∃ evs, moveAssign a b = .ok b ⟨b.P, none, Pool.empty⟩ a.mgr evs ∧ ledger a.mem evs = some [] ∧ NoMalloc evs) := by
+  refine ⟨rfl, rfl, destroy_empty, fun hwf hl => ?_⟩
+  have h0 : a.pool.allocCount = 0 := by rw [hwf.count_exact, hl]; rfl
+  obtain ⟨p', evs, he, hled, hn⟩ := hwf.destroy_ok h0
+  exact ⟨evs, by rw [moveAssign_eq, he], hled, hn⟩
+
+/-- **C09 (world of pools, all histories).** Take any legal history of a world of pool objects and memory managers
+(`WReach`): objects created with a manager, `Allocate` / `Deallocate` / `DeallocateIf` / `DeallocateAll` / `MergeFrom`
+through the manager an object holds at that moment, `Swap`, move construction, move assignment, destruction - managers
+honouring their contract (aligned answers that overlap nothing outstanding with that manager). Then
+* every object is well formed (a moved-from object is empty) and reports exactly the number of its live blocks;
+* for EVERY manager the calls made to it form an exact ledger of the memory held by the objects that hold this manager
+  now, that memory is pairwise disjoint, and no call was ever made through a moved-from manager;
+* every live block of every object can be freed through THAT object - the pool that now owns its buffer - which holds a
+  usable manager, with exactly this block going and only legal frees;
+* when every object has been destroyed, every manager has got back everything it handed out. -/
+theorem C09_world_history (w : List PoolObj) (es : List WEv) (h : WReach w es) :
+    WInv w es ∧
+    (∀ o ∈ w, o.pool.allocCount = (o.pool.live o.P).length) ∧
+    (∀ o ∈ w, ∀ blk ∈ o.pool.live o.P, ∃ m p' evs, o.mgr = some m ∧ deallocate o.P o.pool blk = .ok () p' evs ∧
+      ObjWF { o with pool := p' } ∧ (o.pool.live o.P).Perm (blk :: p'.live o.P) ∧ p'.allocCount + 1 = o.pool.allocCount ∧
+      NoMalloc evs ∧ ∃ L', ledger o.mem evs = some L' ∧ L'.Perm ({ o with pool := p' } : PoolObj).mem) ∧
+    (w = [] → ∀ m, ledger [] (evsOf m es) = some []) := by
+  have hinv := h.inv
+  refine ⟨hinv, fun o ho => (hinv.objs o ho).count_exact, ?_, ?_⟩
+  · intro o ho blk hblk
+    have hwf := hinv.objs o ho
+    rcases Option.eq_none_or_eq_some o.mgr with hm | ⟨m, hm⟩
+    · rw [hwf.movedFrom hm, live_empty] at hblk
+      simp at hblk
+    · have hn := deallocate_NM o.P o.pool blk
+      rcases hwf.N_cases with h2 | h1
+      · obtain ⟨hM, hA2⟩ := Legal.multi hwf.legal h2
+        obtain ⟨p', evs, he, hs⟩ := deallocate_ok hM h2 hA2 (hwf.multi h2) blk hblk
+        rw [he] at hn
+        refine ⟨m, p', evs, hm, he, hwf.withPool hm p' (fun _ => hs.wf) (fun e => by omega), hs.live, hs.count, hn, ?_⟩
+        rw [mem_multi h2, mem_multi (o := { o with pool := p' }) h2]; exact hs.ledger
+      · obtain ⟨p', evs, he, hs⟩ := deallocate_single_ok h1 (hwf.single h1) blk hblk
+        rw [he] at hn
+        refine ⟨m, p', evs, hm, he, hwf.withPool hm p' (fun e => by omega) (fun _ => hs.wf), hs.live, hs.count, hn, ?_⟩
+        rw [mem_single h1, mem_single (o := { o with pool := p' }) h1]; exact hs.ledger
+  · intro hw m
+    obtain ⟨L, h1, h2, _⟩ := hinv.ledgers m
+    rw [hw] at h2
+    simp only [memOf, List.flatMap_nil] at h2
+    rw [h1, List.perm_nil.mp h2]
+
+/-! ## pointer level: the traversals of `DeallocateAll` and `DeallocateIf` -/
+
+/-- **C09 (pointer level, reading and walking the links).** On a heap that holds the buffer list of the state machine
+(`Pool.order = pre.reverse ++ post`, `post = head :: rest`): `pvGetNextBuffer` / `pvGetPrevBuffer` of any buffer of the list
+return what the list view returns (`succIn` on the list and on its reverse = `Pool.nextOf` / `Pool.prevOf`); following
+`next` from `mFreeBufferHead` visits exactly `post`, following `prev` from `pvGetPrevBuffer(mFreeBufferHead)` visits exactly
+`pre` (nearest first). -/
+theorem C09_traversal_ptr (h : Heap) (pre rest : List Int) (head : Int) (fuel : Nat)
+    (hf1 : rest.length < fuel) (hf2 : pre.length ≤ fuel) (hd : IsDll h (pre.reverse ++ head :: rest)) :
+    (∀ x ∈ pre.reverse ++ head :: rest,
+      (h x).next = succIn (pre.reverse ++ head :: rest) x ∧ (h x).prev = succIn (pre.reverse ++ head :: rest).reverse x) ∧
+    ptrWalk fuel h head = head :: rest ∧ ptrWalkBack fuel h (h head).prev = pre :=
+  ⟨fun x hx => dll_reads h _ hd x hx, ptrWalk_refines h pre rest head fuel hf1 hf2 hd⟩
+
+/-- **C09 (pointer level, `DeallocateAll`).** The two loops of `DeallocateAll` as written (`ptrDeallocateAll`: read
+`prev(head)` / `next(buffer)`, unlink with the code of `pvDeleteBuffer`) on a heap holding the list of the state machine:
+they give back exactly the buffers `pre ++ post`, each once, in the order in which the list-level loops `deleteAllPre` /
+`deleteAllPost` take them, and write no buffer outside the list. -/
+theorem C09_deallocateAll_ptr (h : Heap) (pre rest : List Int) (head : Int) (fuel : Nat)
+    (hf1 : rest.length < fuel) (hf2 : pre.length ≤ fuel) (hd : IsDll h (pre.reverse ++ head :: rest)) :
+    (ptrDeallocateAll fuel h head).1 = pre ++ head :: rest ∧
+    ∀ x, x ∉ pre.reverse ++ head :: rest → (ptrDeallocateAll fuel h head).2 x = h x :=
+  ptrDeallocateAll_refines h pre rest head fuel hf1 hf2 hd
+
+/-- **C09 (pointer level, the two loops of `DeallocateIf`).** With the sweep of one buffer (`pvDeleteBlocks`) abstracted to
+ANY transformation of the links that keeps a well-formed list and leaves the not yet visited buffers in place - which the
+surgery the sweeps really perform does (`C09_list_ops_dll`; `sweep_unlink_ok` for "delete the buffer or leave it") - the
+forward loop as written (read `next` before the sweep) visits exactly the buffers from the head to the end of the list the
+state machine had when the loop started, the backward loop exactly the buffers before the head, nearest first; each buffer
+once - the visits of `difForward` / `difBackward`. -/
+theorem C09_deallocateIf_traversal_ptr (sweep : Int → Heap → Heap) :
+    (SweepFwdOK sweep → ∀ (h : Heap) (A T : List Int) (b : Int) (fuel : Nat), T.length < fuel → IsDll h (A ++ b :: T) →
+      (ptrDifForward sweep fuel h b).1 = b :: T ∧ ∃ A', IsDll (ptrDifForward sweep fuel h b).2 A') ∧
+    (SweepBwdOK sweep → ∀ (h : Heap) (pre Z : List Int) (fuel : Nat), pre.length ≤ fuel → IsDll h (pre.reverse ++ Z) →
+      (ptrDifBackward sweep fuel h pre.head?).1 = pre ∧ ∃ L, IsDll (ptrDifBackward sweep fuel h pre.head?).2 L) ∧
+    (∀ del : Int → Bool, SweepFwdOK (fun b h => if del b then ptrUnlink h b else h) ∧
+      SweepBwdOK (fun b h => if del b then ptrUnlink h b else h)) :=
+  ⟨fun hs h A T b fuel hf hd => ptrDifForward_visits sweep hs T A b h fuel hf hd,
+   fun hs h pre Z fuel hf hd => ptrDifBackward_visits sweep hs pre Z h fuel hf hd,
+   sweep_unlink_ok⟩
+
+/-! ### non-vacuity -/
+
+/-- two single-block pools with one block each, merged: one pool with both blocks, count 2, no call to the manager -/
+def exSingle (base : Int) : Option Pool :=
+  match allocate ⟨64, 512, 1, 0⟩ Pool.empty (fun _ => some base) with
+  | .ok _ p _ => some p
+  | _ => none
+example : (exSingle 16).map (·.singles) = some [(512, 496)] ∧ (exSingle 4112).map (·.singles) = some [(4608, 496)] := by decide
+example : Reach1 ⟨64, 512, 1, 0⟩ Pool.empty [] := Reach1.init
+example : (match mergeFrom ⟨64, 512, 1, 0⟩ ⟨[], [], [], [], 1, [(512, 496)]⟩ ⟨[], [], [], [], 1, [(4608, 496)]⟩ with
+    | .ok _ a' evs => some (a'.allocCount, a'.singles, evs) | _ => none) = some (2, [(512, 496), (4608, 496)], []) := by decide
+/-- a world: object with manager 7 is move-constructed from; the source is moved-from and empty -/
+example : WReach [⟨exP, some 7, Pool.empty⟩, ⟨exP, none, Pool.empty⟩] [] :=
+  WReach.moveCtor (WReach.new exP 7 WReach.init (by decide))
+example : ObjWF ⟨exP, some 7, Pool.empty⟩ := ⟨by decide, fun _ => PoolWF.empty _, fun _ => SingleWF.empty _, fun e => by cases e⟩
+/-- walking the links of the merged list of `exHeap` -/
+example : ptrWalkBack 10 (ptrMergeFrom 5 exHeap 11 22) ((ptrMergeFrom 5 exHeap 11 22) 11).prev = [20, 21, 10] := by decide
+example : (ptrDeallocateAll 10 (ptrMergeFrom 5 exHeap 11 22) 11).1 = [20, 21, 10, 11, 22] := by decide
+
+end Momo.Pool
+
+/-! ## `MemPoolUInt32` -/
+namespace Momo.PoolU32
+open Momo.Pool (Ev ledger Disj Inside)
+
+/-- **C09 (`MemPoolUInt32`, index arithmetic and geometry).** The decomposition of a 32-bit block index into buffer number
+and offset used by `GetRealPointer` is a bijection; if the buffers obtained from the manager do not overlap, then for every
+index inside the buffers the real pointer exists, the block lies inside its buffer, blocks of two different indices do not
+overlap, and real pointers are multiples of every `a` that divides the block size and all buffer addresses. -/
+theorem C09_u32_geometry (C : Cfg) (hC : C.Legal) (st : State)
+    (hd : st.bufs.Pairwise (fun a b => Disj a C.bufferSize b C.bufferSize)) :
+    (∀ i, bufferOf C i * C.N + offsetOf C i = i ∧ offsetOf C i < C.N) ∧
+    (∀ k o, o < C.N → bufferOf C (k * C.N + o) = k ∧ offsetOf C (k * C.N + o) = o) ∧
+    (∀ i, i < st.bufs.length * C.N → ∃ b ∈ st.bufs, st.bufs[bufferOf C i]? = some b ∧
+      realPtr C st i = some (rp C st i) ∧ Inside (rp C st i) C.S b (b + C.bufferSize)) ∧
+    (∀ i j, i < st.bufs.length * C.N → j < st.bufs.length * C.N → i ≠ j → Disj (rp C st i) C.S (rp C st j) C.S) ∧
+    (∀ a : Int, a ∣ (C.S : Int) → (∀ b ∈ st.bufs, a ∣ b) → ∀ i, i < st.bufs.length * C.N → a ∣ rp C st i) := by
+  refine ⟨(index_roundtrip C hC.hN).1, (index_roundtrip C hC.hN).2, ?_, fun i j hi hj hij => rp_disj C hC.hN st hd i j hi hj hij,
+    fun a hS hb i hi => rp_aligned C st a hS hb i hi⟩
+  intro i hi
+  obtain ⟨b, hm, hg, hin⟩ := rp_inside C hC.hN st i hi
+  obtain ⟨b', hg', _, hr, hre⟩ := rp_eq C st i hi
+  exact ⟨b, hm, hg, by rw [hr, hre], hin⟩
+
+/-- **C09 (`MemPoolUInt32::Allocate`).** In every well-formed state, for every answer of the memory manager that honours
+its contract (the new buffer overlaps no buffer held), `Allocate` either returns an index that was NOT live and lies inside
+the buffers - after which the live indices are exactly the old ones plus this one, the state is well formed, the count went
+up by one and every call to the manager is accounted for - or fails (`std::bad_alloc` of the manager, `std::length_error` at
+the buffer limit) leaving buffers, free chain, memory words and count unchanged; it never hits an assertion and never reads
+a word of a live block. -/
+theorem C09_u32_alloc_fresh (C : Cfg) (hC : C.Legal) (st : State) (h : WF C st) (orc : Oracle) (hc : ContractU C st orc) :
+    match allocate C st orc with
+    | .ok blk st' evs => AllocSpecU C st st' blk evs
+    | .badAlloc st' evs => SameU st st' ∧ WF C st' ∧ LedgerOKU C st evs st'
+    | .lengthError st' => st' = st
+    | .stuck _ => False :=
+  allocate_ok hC h hc
+
+/-- **C09 (`MemPoolUInt32::Deallocate`).** Freeing a live index always succeeds, removes exactly this index from the live
+set, keeps the state well formed, lowers the count by one, and gives memory back (all of it, when the last block of a pool
+with more than two buffers goes) only with addresses and sizes it was obtained with. -/
+theorem C09_u32_dealloc_exact (C : Cfg) (hC : C.Legal) (st : State) (h : WF C st) (blk : Nat) (hb : blk ∈ live C st) :
+    ∃ st' evs, deallocate C st blk = .ok () st' evs ∧ DeallocSpecU C st st' blk evs :=
+  deallocate_ok hC h blk hb
+
+/-- **C09 (`MemPoolUInt32`, all histories).** Every state reached by a legal history - `Allocate` (succeeding, refused, or
+stopped at the buffer limit), `Deallocate` of live indices, `DeallocateAll`, with a manager that honours its contract - is
+well formed; the reported count is the number of live indices; the free chain as the code walks it never contains a live
+block and together with the live blocks covers the buffers; the buffers do not overlap (so by `C09_u32_geometry` distinct
+live indices are disjoint real blocks inside memory obtained from the manager); the calls made to the manager - buffers AND
+the storage of the buffer array - form an exact ledger; `DeallocateAll` at any time, and the destructor once no index is
+live, leave that ledger EMPTY. -/
+theorem C09_u32_history (C : Cfg) (hC : C.Legal) (st : State) (es : List Ev) (h : ReachU C st es) :
+    WF C st ∧ st.allocCount = (live C st).length ∧
+    (∃ ch, freeChain C st (ch.length + 1) st.head = some ch ∧ ch.Nodup ∧ (∀ i ∈ ch, i ∉ live C st) ∧
+      (∀ i, i < st.bufs.length * C.N → (i ∈ ch ∨ i ∈ live C st))) ∧
+    st.bufs.Pairwise (fun a b => Disj a C.bufferSize b C.bufferSize) ∧
+    LedgerIsU C es st ∧
+    (∃ st' evs, deallocateAll C st = .ok () st' evs ∧ owned C st' = [] ∧ ledger [] (es ++ evs) = some []) ∧
+    (live C st = [] → ∃ st' evs, destroy C st = .ok () st' evs ∧ owned C st' = [] ∧ ledger [] (es ++ evs) = some []) := by
+  obtain ⟨hwf, hled⟩ := h.inv hC
+  have hend : ∀ evs, ledger (owned C st) evs = some [] → ledger [] (es ++ evs) = some [] := by
+    intro evs hl
+    obtain ⟨L, h1, h2⟩ := hled
+    obtain ⟨M, h3, h4⟩ := Pool.ledger_perm evs h2.symm [] hl
+    rw [Pool.ledger_append, h1]
+    simp only [Option.bind]
+    rw [h3, List.perm_nil.mp h4.symm]
+  refine ⟨hwf, hwf.count_exact, hwf.chain_live hC, hwf.disj, hled, ?_, ?_⟩
+  · obtain ⟨st', evs, h1, _, h3, h4, _⟩ := deallocateAll_ok C st
+    exact ⟨st', evs, h1, h4, hend evs h3⟩
+  · intro hl
+    have h0 : st.allocCount = 0 := by rw [hwf.count_exact, hl]; rfl
+    obtain ⟨st', evs, h1, h2, h3⟩ := destroy_ok C st h0
+    exact ⟨st', evs, h1, h3, hend evs h2⟩
+
+/-! ### non-vacuity -/
+/-- a pool of 4-block buffers, 12-byte blocks, at most 5 buffers: legal; the first `Allocate` gets storage for 4 buffer
+    pointers at 9000 and a buffer at 1000, returns index 0 and leaves the chain 1, 2, 3 -/
+def exC : Cfg := mkCfg 4 12 20
+example : exC = ⟨4, 12, 5⟩ ∧ exC.Legal := ⟨by decide, mkCfg_legal 4 12 20 (by decide) (by decide)⟩
+example : WF exC State.empty := WF.empty exC
+example : ReachU exC State.empty [] := ReachU.init
+def exU : Option ((Nat × Nat × List Int) × Option (List Nat) × List Ev) :=
+  match allocate exC State.empty (fun k => if k = 0 then some 9000 else some 1000) with
+  | .ok blk st evs => some ((blk, st.head, st.bufs), freeChain exC st 10 st.head, evs)
+  | _ => none
+example : exU = some ((0, 1, [1000]), some [1, 2, 3], [.malloc 9000 32, .malloc 1000 48]) := by decide
+example : (mkCfg 3 1 100).S = 4 ∧ realPtr exC ⟨[1000, 2000], 4, 9000, 0, fun _ => none, 0⟩ 6 = some 2024 := by decide
+
+end Momo.PoolU32
